@@ -301,6 +301,19 @@ impl<Sink: TokenSink> XmlTokenizer<Sink> {
     // NB: this doesn't do input stream preprocessing or set the current input
     // character.
     fn eat(&self, input: &BufferQueue, pat: &str) -> Option<bool> {
+        // The look-ahead below works on raw input: first drop the LF of a CRLF pair whose
+        // CR was just consumed. If no input is available yet, keep the flag for later.
+        if self.ignore_lf.get() && !self.reconsume.get() {
+            match input.peek() {
+                Some('\n') => {
+                    self.ignore_lf.set(false);
+                    input.next();
+                },
+                Some(_) => self.ignore_lf.set(false),
+                None => (),
+            }
+        }
+
         input.push_front(replace(&mut *self.temp_buf.borrow_mut(), StrTendril::new()));
         match input.eat(pat, u8::eq_ignore_ascii_case) {
             None if self.at_eof.get() => Some(false),
